@@ -473,3 +473,55 @@ Proof.
   - unfold run. cbn. rewrite H. cbn. rewrite H. reflexivity.
   - apply Exists_cons_tl, Exists_cons_hd. constructor.
 Qed.
+
+(* ------------------------------------------------------------------ *)
+(* every header-carried credential is stripped by the decoder           *)
+
+Lemma dedup_covers l : forall seen s, In s l -> ~ In (s_name s) seen ->
+  exists s', In s' (dedup_schemes seen l) /\ s_name s' = s_name s.
+Proof.
+  induction l as [|x l IH]; intros seen s Hin Hns; [destruct Hin|]. simpl.
+  destruct (existsb (String.eqb (s_name x)) seen) eqn:E.
+  - destruct Hin as [->|Hin].
+    + exfalso. apply existsb_exists in E. destruct E as [n [Hn He]]. apply String.eqb_eq in He. subst n. exact (Hns Hn).
+    + apply IH; assumption.
+  - destruct Hin as [->|Hin].
+    + exists s. split; [left; reflexivity|reflexivity].
+    + destruct (string_dec (s_name s) (s_name x)) as [Heq|Hne].
+      * exists x. split; [left; reflexivity|symmetry; exact Heq].
+      * destruct (IH (s_name x :: seen) s Hin) as [s' [H1 H2]].
+        { intros [H|H]; [apply Hne; symmetry; exact H|exact (Hns H)]. }
+        exists s'. split; [right; exact H1|exact H2].
+Qed.
+
+Lemma dedup_subset l : forall seen s, In s (dedup_schemes seen l) -> In s l.
+Proof.
+  induction l as [|x l IH]; intros seen s H; simpl in H; [destruct H|].
+  destruct (existsb (String.eqb (s_name x)) seen).
+  - right. apply (IH _ _ H).
+  - destruct H as [->|H]; [left; reflexivity|right; apply (IH _ _ H)].
+Qed.
+
+Lemma strip_fields_complete L reqs r s a :
+  (forall s1 s2, In s1 (flat_map r_schemes reqs) -> In s2 (flat_map r_schemes reqs) -> s_name s1 = s_name s2 -> s1 = s2) ->
+  In r reqs -> In s (r_schemes r) -> attr_of s = Some a -> is_header (loc_of L a) = true ->
+  In a (strip_fields L reqs).
+Proof.
+  intros Huniq Hr Hs Ha Hh.
+  assert (Hall : In s (flat_map r_schemes reqs)) by (apply in_flat_map; exists r; split; assumption).
+  destruct (dedup_covers _ [] s Hall) as [s' [Hin Hname]]; [intros []|].
+  assert (s' = s) by (apply Huniq; [apply (dedup_subset _ _ _ Hin)|exact Hall|exact Hname]). subst s'.
+  unfold strip_fields. apply in_flat_map. exists s. split.
+  - unfold header_schemes. apply filter_In. split; [exact Hin|]. unfold in_header. rewrite Ha. exact Hh.
+  - rewrite Ha. left. reflexivity.
+Qed.
+
+Lemma strip_fields_sound L reqs a : In a (strip_fields L reqs) ->
+  is_header (loc_of L a) = true /\ exists r s, In r reqs /\ In s (r_schemes r) /\ attr_of s = Some a.
+Proof.
+  unfold strip_fields. intro H. apply in_flat_map in H. destruct H as [s [Hs Ha]].
+  unfold header_schemes in Hs. apply filter_In in Hs. destruct Hs as [Hd Hh].
+  apply dedup_subset in Hd. apply in_flat_map in Hd. destruct Hd as [r [Hr Hsr]].
+  unfold in_header in Hh. destruct (attr_of s) as [a'|] eqn:E; [|destruct Ha].
+  destruct Ha as [<-|[]]. split; [exact Hh|]. exists r, s. repeat split; assumption.
+Qed.
